@@ -472,6 +472,11 @@ def gen_scenario(rng) -> Dict[str, Any]:
     if qclass == "eval-error-candidate" and qtext == "$..*" and rng.random() < 0.7:
         depth = rng.choice((100, 101, 150))
         text, dkind = "[" * depth + "1" + "]" * depth, f"deep-{depth}"
+        if rng.random() < 0.5:
+            # a WIDE part first (thousands of results), the part that makes the evaluation fail last:
+            # whatever is written before the whole result is known would be a partial result
+            n = rng.choice((4095, 4096, 4097, 6000, 10000))
+            text, dkind = '{"a": [' + ", ".join(map(str, range(n))) + '], "z": ' + "[" * depth + "1" + "]" * depth + "}", f"wide-then-deep-{depth}"
     if dkind.startswith("large") and qclass == "generated":
         # a filter with a root or descendant query per node is quadratic in the
         # document: fine for the library, useless for this check
